@@ -12,6 +12,33 @@ CLAIMED = {
  "C02": dict(cat="model_checking", tech=MC, ref="DESIGN.md §5 C02",
    text="same exhaustive exploration; per-transition zero-sum / supply / transfers / exact-due obligations whose conjunction gives the end-to-end statement by induction over the history",
    note=TRUST + "; vesting/locked user accounts are not in the alphabet"),
+ "C03": dict(cat="model_checking", tech=MC + "; order-book enumeration against a by-definition reference (linear scan, exact rationals)", ref="DESIGN.md §5 C03",
+   text="every order book of <=3 (quick) / <=4 (thorough) real PlaceBid calls over bidder x kind x price x amount, under several cap / supply assignments and a cap lowered after the bids, plus every book reached through modifications: the MatchingInfo of the real CalculateBatchAllocation and the coins delivered by the real settlement block are compared with the definition of the clearing price",
+   note=TRUST + "; books of more than 4 bids and prices outside the alphabet are not covered"),
+ "C04": dict(cat="model_checking", tech=MC, ref="DESIGN.md §5 C04",
+   text="same enumeration plus fixed-price bid sequences: at every settlement each bidder's payment (reservation minus refund, read off the real bank transfers) is checked against P*q <= paid < P*q + matched bids, <= reservation, limit price; every accepted fixed-price bid against its rounding bound, all in exact rationals",
+   note=TRUST + "; the for-all-prices arithmetic fact is established on the price x amount grid only"),
+ "C05": dict(cat="model_checking", tech=MC, ref="DESIGN.md §5 C05",
+   text="every accepted fixed-price bid is checked against the cap and remainder of its pre-state and every settlement (both auction types, multi-auction scenario included) against cap, request at the clearing price and offered amount",
+   note=TRUST),
+ "C06": dict(cat="model_checking", tech=MC, ref="DESIGN.md §5 C06",
+   text="all fixed-price bid sequences within the budget by allow-listed and outsider accounts in both denominations; each accept/reject decision is compared in both directions with the reference predicate, the published remainder with offered minus accepted in every state, recorded bids are never changed",
+   note=TRUST),
+ "C08": dict(cat="model_checking", tech=MC, ref="DESIGN.md §5 C08",
+   text="lifecycle scenarios (fixed, batch with extension, multi-auction) with blocks before / exactly at / after every boundary instant, skipped instants and +1h ticks, and bids / modifications / cancels attempted in every status: status and end times of every auction after every transition equal the reference step function's",
+   note=TRUST + "; interpretation I1 (one lifecycle step per block, chosen from the status at the start of the block)"),
+ "C09": dict(cat="model_checking", tech=MC, ref="DESIGN.md §5 C09",
+   text="8 schedule shapes (1-4 instalments, incl. 1e-18 weights) x proceeds grid x every block pattern over the release instants: the stored split equals floor(proceeds x weight) / remainder-to-last and every block pays exactly the instalments due and unreleased at its start, flags flip with the payment and never again",
+   note=TRUST + "; weights and proceeds outside the grid, schedules of 5-100 instalments are not covered"),
+ "C11": dict(cat="model_checking", tech=MC, ref="DESIGN.md §5 C11",
+   text="chains of modifications of every bid by owner, other bidder and outsider over a (price, amount) grid with one representative per rejection reason; decisions compared in both directions with the reference predicate; identity, monotonicity and charge = reservation increase on acceptance; in every transition no bid disappears or shrinks",
+   note=TRUST),
+ "C12": dict(cat="model_checking", tech=MC, ref="DESIGN.md §5 C12",
+   text="cancel attempted by auctioneer / other auctioneer / bidder on every auction in every status and position relative to its start; decision = (signer is auctioneer and status is waiting); refund, escrow, remainder and status checked on acceptance; cancelled is permanent and only produced by a cancel message",
+   note=TRUST),
+ "C13": dict(cat="model_checking", tech=MC + " + bounded-liveness continuation from every distinct state", ref="DESIGN.md §5 C13",
+   text="order-book evolutions between end times for max rounds 0-2, rates 0.25/0.5/1 (thorough +0.1), periods 0/1/2: decision at every end-time block equals the exact-rational rule, appended end time = last + period, recorded matched count = reference count; from every distinct open state one block per successive end time must settle within the rounds left",
+   note=TRUST + "; interpretation I3 (rates that depend on 18-decimal rounding of cur/prev are kept out of the alphabet); round limits above 2 only in the creation-precondition check"),
  "C07": dict(cat="model_checking", tech=MC + " + exhaustive single-fault enumeration over the bank calls of every distinct effective block",
    ref="DESIGN.md §5 C07",
    text="(a) every explored state of the lifecycle and multi-auction scenarios x every later block instant: the module's registered block hook returns nil and does not panic; (b) for every distinct (state, block time) whose block calls the bank, each call index in turn returns an injected error and the hook must return an error wrapping it",
